@@ -944,12 +944,12 @@ struct pmis {
                 if (d == comm.rank) {
                     auto col = &P_loc.col[P_loc.ptr[i]];
                     for (int j = 0; j < null_cols; ++j) {
-                        col[j] = null_cols * s / prm.block_size + j;
+                        col[j] = null_cols * (s / prm.block_size) + j;
                     }
                 } else {
                     auto col = &P_rem.col[P_rem.ptr[i]];
                     for (int j = 0; j < null_cols; ++j) {
-                        col[j] = null_cols * (s + cdom[d]) / prm.block_size + j;
+                        col[j] = null_cols * ((s + cdom[d]) / prm.block_size) + j;
                     }
                 }
             }
